@@ -28,6 +28,8 @@ sub "negative" : ground truth.  A well-dimensioned program in which the unit of
                  with -fsyntax-only: it must FAIL, while the original program
                  (the same text with the offending unit fixed) must compile.
 sub "square_root": tfel::math::square_root(q) is the power 1/2.
+sub "abs_view" : tfel::math::abs applied to a view (qt_ref / const_qt_ref); kept apart from "positive"
+                 because one rejected program makes a whole batch uncompilable.
 
 Replay files hold a single program / pair (JSON).
 """
@@ -386,7 +388,10 @@ def check_positive(p):
     txt = PREAMBLE + program_function(p, "p0", eu) + "\nint main(){ p0(); return 0; }\n"
     out, err = build_and_run(txt, "pos_" + fnv(p))
     if out is None:
-        return Result(False, key="C20.positive.rejected", msg="a well-dimensioned program does not compile: " + err)
+        view = any(n["k"] == "abs" and n["a"]["k"] == "v" and p["vars"][n["a"]["i"]]["form"] in ("ref", "cref")
+                   for e in program_exprs(p) for n in walk(e))
+        return Result(False, key="C20.positive.rejected" + (".abs_of_view" if view else ""),
+                      msg="a well-dimensioned program does not compile: " + err)
     f = out.split()
     return judge_positive_line(p, f[2:10])
 
@@ -493,7 +498,8 @@ def check_sqrt(p):
     return check_positive(p)
 
 
-CHECKS = {"positive": check_positive, "probe": check_probe, "negative": check_negative, "square_root": check_sqrt}
+CHECKS = {"positive": check_positive, "probe": check_probe, "negative": check_negative, "square_root": check_sqrt,
+          "abs_view": check_positive}
 replay_main(CHECKS)
 
 # ------------------------------------------------------------------ strategies
@@ -535,6 +541,13 @@ class Builder:
             return self.draw(st.sampled_from(ok))
         return self.new_var(exps=u, mutable=mutable)
 
+    def no_bare_view(self, e):
+        """tfel::math::abs cannot be instantiated for the views qt_ref / const_qt_ref (reported by the
+        sub-check "abs_view"): elsewhere a bare view below abs is turned into a value by `1 * v` (exact)"""
+        if e["k"] == "v" and self.vars[e["i"]]["form"] in ("ref", "cref"):
+            return {"k": "bin", "op": "*", "a": {"k": "i", "x": 1}, "b": e}
+        return e
+
     def scalar(self):
         if self.draw(st.booleans()):
             return {"k": "i", "x": self.draw(st.sampled_from([1, 2, 3, 4]))}
@@ -558,7 +571,7 @@ class Builder:
         if c == "pow":
             a, ua = self.any_expr(depth - 1)
             n, dd = d(st.sampled_from(POWERS))
-            e = {"k": "pow", "n": n, "d": dd, "a": {"k": "abs", "a": a} if dd != 1 else a}
+            e = {"k": "pow", "n": n, "d": dd, "a": {"k": "abs", "a": self.no_bare_view(a)} if dd != 1 else a}
             if dd == 1 and d(st.booleans()):
                 e["short"] = True
             # exponents stay small: the library's unit arithmetic is on int
@@ -571,7 +584,7 @@ class Builder:
             return {"k": "bin", "op": d(st.sampled_from("+-")), "a": a, "b": self.expr_of(ua, depth - 1)}, ua
         if c in ("neg", "abs"):
             a, ua = self.any_expr(depth - 1)
-            return {"k": c, "a": a}, ua
+            return {"k": c, "a": self.no_bare_view(a) if c == "abs" else a}, ua
         a, ua = self.any_expr(depth - 1)
         if c == "scal":
             op = d(st.sampled_from("*/"))
@@ -638,7 +651,18 @@ def programs(draw, max_depth=3, max_stmts=3):
 def sqrt_programs(draw):
     b = Builder(draw)
     a, _ = b.any_expr(draw(st.integers(0, 1)))
-    return {"vars": b.vars, "stmts": [], "result": {"k": "sqrt", "a": {"k": "abs", "a": a}}}
+    return {"vars": b.vars, "stmts": [], "result": {"k": "sqrt", "a": {"k": "abs", "a": b.no_bare_view(a)}}}
+
+
+@st.composite
+def abs_view_programs(draw):
+    b = Builder(draw)
+    i = b.new_var(unit=draw(st.sampled_from(NAMES)))
+    b.vars[i]["form"] = draw(st.sampled_from(["ref", "cref"]))
+    e = {"k": "abs", "a": {"k": "v", "i": i}}
+    if draw(st.booleans()):
+        e = {"k": "bin", "op": "*", "a": e, "b": {"k": "v", "i": b.new_var(unit=draw(st.sampled_from(NAMES)))}}
+    return {"vars": b.vars, "stmts": [], "result": e}
 
 
 @st.composite
@@ -754,6 +778,7 @@ def is_negative(c):
 
 
 neg = collect(negatives().filter(is_negative), nneg, 4)
+absv = collect(abs_view_programs(), param("abs_views", 1), 5)
 
 
 def run_positive_batch(batch):
@@ -798,6 +823,8 @@ if prb:
     tasks.append(("probe", prb, run_probe_batch, (prb, "probe_batch")))
 for c in neg:
     tasks.append(("negative", [c], lambda a: [run_negative(a)], c))
+for p in absv:
+    tasks.append(("abs_view", [p], lambda a: [check_positive(a)], p))
 
 results = parallel_map(lambda t: t[2](t[3]), tasks, jobs=jobs)
 reported = set()
